@@ -3,9 +3,11 @@
 # tier, on a private copy of /repo and of the harness (so /repo and /verif are never modified).
 # A non-zero exit of any check on such a change is a false alarm of the machinery (or the change
 # is not in fact property-preserving: look at it). Writes /verif/benign/RESULTS.tsv.
-# usage: tools/benign_matrix.sh [name ...]   (default: all);  SEEDS="1 2" by default
+# usage: tools/benign_matrix.sh [name ...]   (default: all);  SEEDS="1 2" by default;
+#        W=<scratch dir> RESULT=<tsv> to run several instances side by side
 set -u
-W=/var/tmp/kvb
+W=${W:-/var/tmp/kvb}
+RESULT=${RESULT:-/verif/benign/RESULTS.tsv}
 rm -rf $W; mkdir -p $W
 git -C /repo worktree prune
 git -C /repo worktree add -q --detach $W/repo HEAD || exit 2
@@ -37,7 +39,7 @@ for m in $names; do
   echo -e "$line" >> $OUT
 done
 cd $W/repo && git checkout -q -- .
-cp $OUT /verif/benign/RESULTS.tsv
-rm -rf /var/tmp/kvb-logs; cp -r $W/logs /var/tmp/kvb-logs
+cp $OUT $RESULT
+rm -rf $W-logs; cp -r $W/logs $W-logs
 cd /; git -C /repo worktree remove --force $W/repo; rm -rf $W
 echo done
